@@ -9,9 +9,9 @@ PROP = {
             "1% extrapolation zone incl. both limits in one zone, tiny interval, whole domain), either order, interleaved with random Set_Prefactor/Multiply histories "
             "(positive, negative, 1e-30, 1e30); 2D grids with four prefactor rounds",
     "floors": {"quick": {"cases": 15000, "distinct_nontrivial": 12000,
-                         "clauses": {"integrate-is-integral-of-interpolate": 40000, "integrate-antisymmetric-bit-exact": 40000, "integrate-additive-over-adjacent-intervals": 40000,
+                         "clauses": {"integrate-is-integral-of-interpolate": 40000, "integrate-antisymmetric": 40000, "integrate-additive-over-adjacent-intervals": 40000,
                                      "integrate-scales-with-prefactor": 40000, "local-minimum-is-smallest-curve-value": 30000, "no-evaluation-below-local-minimum": 40000,
-                                     "local-minimum-is-attained-incl-extrapolation-zone": 3000, "local-extrema-scale-with-prefactor-exactly": 40000,
+                                     "local-minimum-is-attained-incl-extrapolation-zone": 3000, "local-extrema-scale-with-prefactor": 40000,
                                      "global-extrema-are-prefactor-times-table-extrema": 2500, "2d-global-extrema-are-prefactor-times-table-extrema": 3000,
                                      "integral-derivative-wrt-upper-limit-is-interpolate": 3000}},
                "thorough": {"cases": 300000, "distinct_nontrivial": 100000,
